@@ -1,4 +1,5 @@
-From SV Require Import Store.Raw Store.Masked Store.StoreInv World.Env World.StoreSim Store.Events Props.C12.
+From SV Require Import Store.Raw Store.Masked Store.StoreInv World.Env World.StoreSim Store.Events World.World World.Join World.JoinEvents.
+From SV Require Import Props.C12.
 Check (C12_events_replay_membership : forall ms m av ent so c, MInv ms m ->
   (forall s, so <> SClear s) -> (forall s b, so <> SSetEmission s b) ->
   evrel ms (fst (fst (ms_sop ms av ent so c)))).
@@ -17,3 +18,6 @@ Check (C12_modified_exactly_on_mutable_access : forall ms m av e touch nv c, MIn
 Check (C12_read_only_is_silent : forall ms av e so c,
   match so with SGet _ _ | SContains _ _ | SCount _ | SIsEmpty _ | SMask _ | SSlice _ => True | _ => False end ->
   ms_chan (fst (fst (ms_sop ms av e so c))) = ms_chan ms).
+Check (C12_events_of_join_accesses : forall ms m a c, MInv ms m ->
+  NS.mem (match a with JRead i | JAccess i _ _ | JRemove i => i end) (ms_mask ms) = true ->
+  ms_chan (fst (fst (ms_jact ms a c))) = (if ms_emit ms then ev_of_act (ms_wrap ms) a else []) ++ ms_chan ms).
